@@ -72,7 +72,7 @@ def run(R):
     okb, log = vlib.go_test_build("conc", h, race=True)
     if not okb:
         R.proof_problems.append("Go harness harness/conc no longer builds against the tree: " + log[-400:]); R.log(log[-1500:]); return R.finish()
-    seconds, rounds, record = (20, 100000, 300) if R.quick else (300, 10000000, 5000)
+    seconds, rounds, record = (17, 100000, 300) if R.quick else (300, 10000000, 5000)
     rc, out, trace = stress(R, h, R.seed, seconds, rounds, record)
     nraces = out.count("WARNING: DATA RACE")
     if nraces:
@@ -141,7 +141,9 @@ def run(R):
                 distinct.add(hashlib.md5("\n".join(x for x in cur if x.startswith("H ")).encode()).hexdigest())
     for l in fails[:3]:
         rnd = l.split(" ")[1].split(":")[0]
-        R.oracle_failure("linearizability:" + (" ".join(l.split(" ")[6:8]))[:80],
+        forced = rnd.startswith("g")
+        R.oracle_failure(("forced-interleaving:" if forced else "linearizability:") + (" ".join(l.split(" ")[6:8]))[:80],
+                         ("forced interleaving (op1 parked between the RIB and the FIB critical section while op2 runs): " if forced else "") +
                          "a recorded concurrent history has no sequential order that respects real time, reproduces every lookup result and ends in the observed final tables",
                          dict(seed=R.seed, verdict=l[:600], history=hist.get(rnd, [])))
     for l in face_fails[:3]:
@@ -154,6 +156,8 @@ def run(R):
     R.add_cases(rounds_seen, len(distinct), samples)
     R.coverage["rule"] = ("one evaluation = one round of 2..16 goroutines issuing reg/unreg/teardown/ins/rem/sets/uns and nh/st/fib/sl/rib lookups concurrently on a fresh FIB "
                           "(alternating name tree / hash table, m in 1..3) under -race; the first rounds (3 in 4, up to a cap) are recorded (<= 17 operations) and checked for a sequential witness, "
+                          "before them 72 deterministic forced interleavings (a harness-side shim around table.FibStrategyTable parks op1 at the entry of the FIB while a second complete RIB operation "
+                          "on the same / an ancestor / a descendant prefix is attempted; reg/unreg/teardown pairs, both FIBs), checked the same way; "
                           "the others are unrecorded heavy rounds (200 operations per goroutine) for race/abort/deadlock detection; every fifth round exercises the face table instead "
                           "(stub faces: concurrent FaceTable.Add/Remove/Get; small recorded rounds searched for a sequential witness, heavy rounds checked against what every sequential order "
                           "produces: distinct consecutive FaceIDs, bindings = added minus removed, dispatch registry equal); non-trivial = recorded round with >= 3 operation kinds "
